@@ -4,6 +4,7 @@
 //!       `c17 esc <hex prev> <hex backslash mask>`  get_escaped_branchless_u64 -> `r=<mask> c=<carry>`
 //!       `c17 sb <hex 64 bytes> <hex prev_instring> <hex prev_escaped>`  get_string_bits -> `r=<mask> pi=.. pe=..`
 //!       `c17 cb <hex text> o|a`          skip_container_loop over consecutive blocks -> `r=<bytes consumed>|none l=.. rr=..`
+//!       `c17 ss <hex text>`              skip_string_unchecked on the text after an opening quote -> `r=<bytes consumed>|none esc=0|1`
 //!       `c17 d2i <hex 16 bytes> <need>`    simd_str2int (first byte a digit, need in 1..=16) -> `r=<sum> n=<count>`
 //!       `c17 v <lanes> <hex bytes> <hex c>` u8xN eq/le, i8xN eq/le/gt against splat(c) -> `eq=.. le=.. ieq=.. ile=.. igt=..`
 use crate::util::*;
@@ -88,6 +89,13 @@ pub fn run() {
                 match res {
                     Some(n) => format!("r={} l={} rr={}", n, st.2, st.3),
                     None => format!("r=none l={} rr={} pi={:x} pe={:x}", st.2, st.3, st.0, st.1),
+                }
+            }
+            "ss" => {
+                let data = if p.len() > 2 { unhex(&p[2]) } else { Vec::new() };
+                match sonic_rs::verif::skip_string(&data) {
+                    Some((n, esc)) => format!("r={} esc={}", n, esc as u8),
+                    None => "r=none".to_string(),
                 }
             }
             "d2i" => {
@@ -206,5 +214,41 @@ pub fn gen(seed: u64, thorough: bool) {
         let len = 1 + (r.next() % if k % 7 == 0 { 300 } else { 90 }) as usize;
         let soup: Vec<u8> = (0..len).map(|_| *r.pick(&alphabet)).collect();
         out.line(&format!("c17 cb {} {}", hex(&soup), if k % 2 == 0 { "o" } else { "a" }));
+    }
+    // skip_string_unchecked: a closing quote at every offset 0..100 after plain bytes; backslash runs of every length 1..6 ending
+    // at every offset around the 32-byte edges, followed by a quote (escaped or not) and a second quote; random soups; unterminated
+    for off in 0..100usize {
+        let mut t = vec![b'a'; off];
+        t.push(b'"');
+        t.extend_from_slice(b"x\"y");
+        out.line(&format!("c17 ss {}", hex(&t)));
+        out.line(&format!("c17 ss {}", hex(&t[..off])));
+    }
+    for run in 1..=6usize {
+        for end in (0..100usize).step_by(if thorough { 1 } else { 3 }) {
+            for tail in [&b"\"b\" c"[..], &b"\""[..], &b""[..], &b"n\\\"\"\""[..]] {
+                let mut t = vec![b'a'; end.saturating_sub(run)];
+                t.extend(std::iter::repeat(b'\\').take(run));
+                t.extend_from_slice(tail);
+                out.line(&format!("c17 ss {}", hex(&t)));
+                // the same with enough text behind it that the next block is a whole one too
+                t.extend(std::iter::repeat(b'z').take(40));
+                t.extend_from_slice(b"\\\"q\" ");
+                out.line(&format!("c17 ss {}", hex(&t)));
+            }
+        }
+    }
+    let salpha: [u8; 8] = [b'"', b'\\', b'\\', b'a', b'a', b'a', b'u', b'{'];
+    for k in 0..n {
+        let len = (r.next() % if k % 5 == 0 { 200 } else { 70 }) as usize;
+        let dense = k % 3 == 0;
+        let mut soup: Vec<u8> = (0..len).map(|_| if dense { *r.pick(&salpha) } else if r.next() % 12 == 0 { *r.pick(&salpha) } else { b'z' }).collect();
+        out.line(&format!("c17 ss {}", hex(&soup)));
+        // quote-free prefix with backslashes, so that the carry crosses block edges, then the soup
+        let plen = (r.next() % 100) as usize;
+        let mut t: Vec<u8> = (0..plen).map(|_| if r.next() % 3 == 0 { b'\\' } else { b'y' }).collect();
+        t.append(&mut soup);
+        t.extend(std::iter::repeat(b'z').take(34));
+        out.line(&format!("c17 ss {}", hex(&t)));
     }
 }
